@@ -137,7 +137,7 @@ def _draw_geometry(rng: random.Random, method: str, small: bool = True) -> dict:
     b_max = r3(min(rng.uniform(b_min + 1.0, b_min + 5.0), short_side / 2.0 - 0.01))
     b_max = max(b_max, r3(b_min + 0.5))
     if method == "NEARSQUARE":
-        return {"method": method, "b": r3(rng.uniform(4.0, 7.0)), "length": length}
+        return {"method": method, "b": r3(rng.uniform(4.0, 7.0)), "length": length, "_explicit_type": rng.random() < 0.3}
     if method == "RECTANGLE":
         return {"method": method, "length": length, "width": width, "b_min": b_min, "b_max": b_max}
     if method in ("BIRECTANGLE", "BIZONEDRECTANGLE"):
@@ -316,8 +316,11 @@ def _call_setter(mgr, name: str, cfg: dict, loads_cache: dict):
     elif name == "geometry":
         g = dict(cfg["geometry"])
         m = g.pop("method")
+        explicit = g.pop("_explicit_type", False)
+        if explicit:
+            # the optional explicit type call; the geometry setters do not need it
+            mgr.set_design_geometry_type(m.lower())
         if m == "NEARSQUARE":
-            mgr.set_design_geometry_type("nearsquare")
             mgr.set_geometry_constraints_near_square(**g)
         elif m == "RECTANGLE":
             mgr.set_geometry_constraints_rectangle(**g)
